@@ -94,3 +94,36 @@ SUBS = [
     Sub("exhaustive", check, enum=enum_cases),
     Sub("random", check, strategy=lambda tier: random_case(tier), budget=(3000, 40000)),
 ]
+
+
+# ---------------------------------------------------------------------------
+# thorough tier: coverage-guided fuzzing (atheris) of the pure-Python candidate generation, same oracle inside the target
+# ---------------------------------------------------------------------------
+_FUZZ_ALPHA = ["AC", "ACD", G.AA, "ab"]
+
+
+def fuzz_decode(fdp):
+    alpha = _FUZZ_ALPHA[fdp.ConsumeIntInRange(0, len(_FUZZ_ALPHA) - 1)]
+    k = fdp.ConsumeIntInRange(1, 3)
+    n = fdp.ConsumeIntInRange(1, 10)
+    seqs = []
+    for _ in range(n):
+        L = fdp.ConsumeIntInRange(0, 7)
+        seqs.append("".join(alpha[fdp.ConsumeIntInRange(0, len(alpha) - 1)] for _ in range(L)))
+    return {"seqs": seqs, "k": k, "engine": "symdel" if fdp.ConsumeBool() else "nearest_neighbor"}
+
+
+def fuzz_seed_corpus(target):
+    # the inputs of the repository's own tests, encoded for fuzz_decode (alphabet 2 = amino acids)
+    def enc(seqs, k):
+        b = bytearray([2, k - 1, len(seqs) - 1])
+        for s_ in seqs:
+            b.append(len(s_))
+            b.extend(G.AA.index(c) for c in s_)
+        b.append(1)
+        return bytes(b)
+    return [enc(["CAAA", "CDDD", "CADA", "CAAK"], 1), enc(["CAAA", "CAAA", "CADA"], 1), enc(["CAF", "CAAF", "CF", ""], 2)]
+
+
+FUZZ = {"symdel": (fuzz_decode, "random")}
+FUZZ_RUNS = 240000
